@@ -40,7 +40,10 @@ def execute(c, choices):
     ck = specs.mk_checker(c['checker'])
     if c.get('cached'):
         from vakt.cache import create_cached_guard
-        guard, st, cache = create_cached_guard(storage, ck, maxsize=c.get('cap', 16))
+        if c.get('atomic'):
+            guard, st, cache = create_cached_guard(storage, ck, cache=atomic_backend(s.lock()))
+        else:
+            guard, st, cache = create_cached_guard(storage, ck, maxsize=c.get('cap', 16))
         if c.get('drop_handle'):
             # the caller keeps only (guard, storage); invalidation must not depend on the third value staying alive
             import gc
@@ -105,6 +108,35 @@ def _explore_one(arg):
     st = ConcStream()
     st._tier = tier
     return st._explore(c)
+
+
+def atomic_backend(lock):
+    """a user-supplied AllowanceCache back-end: look-up, computation and insertion of an ask happen under one lock,
+    invalidate() takes the same lock"""
+    from vakt.cache import AllowanceCacheBackend
+
+    class LockedDictBackend(AllowanceCacheBackend):
+        def __init__(self):
+            self.store = {}
+            self.lock = lock              # the scheduler's lock: a thread that would block is reported "not enabled"
+
+        def wrap(self, func):
+            def cached(inquiry):
+                with self.lock:
+                    if inquiry in self.store:
+                        return self.store[inquiry]
+                    r = func(inquiry)
+                    self.store[inquiry] = r
+                    return r
+            return cached
+
+        def invalidate(self):
+            with self.lock:
+                self.store.clear()
+
+        def info(self):
+            return None
+    return LockedDictBackend()
 
 
 class ConcStream(Stream):
@@ -174,6 +206,29 @@ class ConcStream(Stream):
             # cached guard: asked twice against the add of a vetoing policy through the observable storage
             {'checker': 'CExact', 'rxtable': [], 'init': [a], 'inquiries': [INQ], 'cached': True, 'cap': 16,
              'threads': [[['decide', 0], ['decide', 0]], [['add', d]]]},
+            # cached guard asked twice against the delete of the only allowing policy: whatever a decision computed from
+            # the store as it was before delete() returned must not be served after it returned
+            {'checker': 'CExact', 'rxtable': [], 'init': [a], 'inquiries': [INQ], 'cached': True, 'cap': 16,
+             'threads': [[['decide', 0], ['decide', 0]], [['delete', 'a']]]},
+            {'checker': 'CExact', 'rxtable': [], 'init': [a, d], 'inquiries': [INQ], 'cached': True, 'cap': 16,
+             'threads': [[['decide', 0], ['decide', 0]], [['delete', 'd']]]},
+            # a user-supplied cache back-end whose ask is atomic (look-up, computation, insertion under one lock): the
+            # lru_cache race is impossible there, so NOTHING stale may survive the return of a mutation
+            # (C14_atomic_backend_fresh) - what is left to go wrong is the order apply / notify inside the mutation
+            {'checker': 'CExact', 'rxtable': [], 'init': [a], 'inquiries': [INQ], 'cached': True, 'atomic': True,
+             'threads': [[['decide', 0], ['decide', 0]], [['delete', 'a']]]},
+            {'checker': 'CExact', 'rxtable': [], 'init': [a], 'inquiries': [INQ], 'cached': True, 'atomic': True,
+             'threads': [[['decide', 0], ['decide', 0]], [['add', d]]]},
+            {'checker': 'CExact', 'rxtable': [], 'init': [a, d], 'inquiries': [INQ], 'cached': True, 'atomic': True,
+             'threads': [[['decide', 0], ['decide', 0]], [['update', pol('d', 'allow')]]]},
+            # the mutating thread asks right after its own mutation returned: with an atomic back-end that answer is always
+            # the decision for the store it has just changed (one preemption inside the mutation is enough to tell)
+            {'checker': 'CExact', 'rxtable': [], 'init': [a], 'inquiries': [INQ], 'cached': True, 'atomic': True,
+             'threads': [[['decide', 0]], [['delete', 'a'], ['decide', 0]]]},
+            {'checker': 'CExact', 'rxtable': [], 'init': [a], 'inquiries': [INQ], 'cached': True, 'atomic': True,
+             'threads': [[['decide', 0]], [['add', d], ['decide', 0]]]},
+            {'checker': 'CExact', 'rxtable': [], 'init': [a, d], 'inquiries': [INQ], 'cached': True, 'atomic': True,
+             'threads': [[['decide', 0]], [['update', pol('d', 'allow')], ['decide', 0]]]},
             # the same with the returned cache handle dropped by the caller (only guard and storage are kept)
             {'checker': 'CExact', 'rxtable': [], 'init': [a], 'inquiries': [INQ], 'cached': True, 'cap': 16,
              'drop_handle': True, 'threads': [[['decide', 0], ['add', d], ['decide', 0]]]},
@@ -216,7 +271,9 @@ class ConcStream(Stream):
             acts = []
             for op in ops:
                 if op[0] == 'decide':
-                    if c.get('cached'):
+                    if c.get('cached') and c.get('atomic'):
+                        acts.append('(AAsk pmut N %s)' % e_N(op[1]))
+                    elif c.get('cached'):
                         acts += ['(ALookup pmut N %s)' % e_N(op[1]), '(ASnap pmut N %s)' % e_N(op[1]),
                                  '(AInsert pmut N %s)' % e_N(op[1])]
                     else:
@@ -229,7 +286,7 @@ class ConcStream(Stream):
         inits = ['(Add %s %s false)' % (e_pstr('s' + p['uid']), specs.e_policy(p)) for p in c['init']]
         return ('{| n_ck := %s; n_table := %s; n_qs := %s; n_cap := %s; n_init := %s; n_progs := %s |}' % (
             c['checker'], guardlib.e_table(c['rxtable']), e_list(qs, '(N * inquiry)'),
-            e_option(c.get('cap', 16) if c.get('cached') else None, e_nat, 'nat'),
+            e_option(c.get('cap', 16) if c.get('cached') and not c.get('atomic') else None, e_nat, 'nat'),
             e_list(inits, '(op pstr (option policy))'), e_list(progs, '(list (act pmut N))')))
 
     # ---- implementation side
@@ -337,8 +394,19 @@ class ConcStream(Stream):
                 window = snaps[start:end + 1] or [snaps[min(start, len(snaps) - 1)]]
                 allowed = set(s_bool(self._decision(c, s, info['pols'], op[1], memo)) for s in set(window))
                 if ans not in allowed:
+                    # is the answer explained by a mutation that was in flight (applied or about to be, not yet returned)
+                    # when the decision started or while it ran?  Then it is the decision for the store as it stood when
+                    # that mutation began; otherwise it survived the return of every mutation that could explain it.
+                    kind = 'after-return'
+                    for tj, oj, ms, me in info['spans']:
+                        if c['threads'][tj][oj][0] == 'decide' or me < start or ms > end:
+                            continue
+                        back = snaps[min(ms, start):end + 1]
+                        if ans in set(s_bool(self._decision(c, s, info['pols'], op[1], memo)) for s in set(back)):
+                            kind = 'in-flight'
+                            break
                     out.append((prefix, 'decision %s is not the decision for any policy set between its start and end '
-                                        '(those give %s)' % (ans, sorted(allowed)), oc))
+                                        '(those give %s) [%s]' % (ans, sorted(allowed), kind), oc))
                     break
         return out
 
@@ -358,7 +426,14 @@ class ConcStream(Stream):
         if c.get('cached') and mo is not None and self.same(io, mo):
             v = self.violations(c)
             if v and all('is not the decision for any policy set' in what for _, what, _ in v):
-                return 'lru-stale-insert'
+                if all(what.endswith('[in-flight]') for _, what, _ in v):
+                    # answered from the cache between the moment a mutation is applied and its notify(): inherent in
+                    # "apply, then notify"; the mutation has not returned yet
+                    return 'cached-hit-in-flight'
+                if not c.get('atomic'):
+                    return 'lru-stale-insert'
+                # an atomic back-end cannot store a result computed before an invalidation after it
+                # (C14_atomic_backend_fresh): a stale answer that survives the return of the mutation is new
         return None
 
     def nontrivial(self, c, obs):
